@@ -6106,11 +6106,18 @@ class Path(Shape, MutableSequence):
     def end(self):
         pass
 
+    def _segment_close_point(self):
+        """Destination of a segment-completing 'z' operand: the current subpath start, which must exist."""
+        end_pos = self.z_point
+        if end_pos is None:
+            raise ValueError("segment-completing close requires a subpath start")
+        return end_pos
+
     def move(self, *points, relative=False, **kwargs):
         start_pos = self.current_point
         end_pos = points[0]
         if end_pos in ("z", "Z"):
-            end_pos = self.z_point
+            end_pos = self._segment_close_point()
         self.append(Move(start_pos, end_pos, relative=relative))
         if len(points) > 1:
             self.line(*points[1:], relative=relative)
@@ -6121,7 +6128,7 @@ class Path(Shape, MutableSequence):
             start_pos = self.current_point
             end_pos = points[index]
             if end_pos in ("z", "Z"):
-                end_pos = self.z_point
+                end_pos = self._segment_close_point()
             self.append(Line(start_pos, end_pos, relative=relative))
         return self
 
@@ -6179,7 +6186,7 @@ class Path(Shape, MutableSequence):
             control1 = self.smooth_point
             end_pos = points[index]
             if end_pos in ("z", "Z"):
-                end_pos = self.z_point
+                end_pos = self._segment_close_point()
             self.append(
                 QuadraticBezier(
                     start_pos, control1, end_pos, relative=relative, smooth=True
@@ -6192,7 +6199,7 @@ class Path(Shape, MutableSequence):
             start_pos = self.current_point
             control = points[index]
             if control in ("z", "Z"):
-                control = self.z_point
+                control = self._segment_close_point()
                 self.append(
                     QuadraticBezier(
                         start_pos, control, control, relative=relative, smooth=False
@@ -6201,7 +6208,7 @@ class Path(Shape, MutableSequence):
                 return self
             end_pos = points[index + 1]
             if end_pos in ("z", "Z"):
-                end_pos = self.z_point
+                end_pos = self._segment_close_point()
             self.append(
                 QuadraticBezier(
                     start_pos, control, end_pos, relative=relative, smooth=False
@@ -6218,7 +6225,7 @@ class Path(Shape, MutableSequence):
             control2 = points[index]
 
             if control2 in ("z", "Z"):
-                control2 = self.z_point
+                control2 = self._segment_close_point()
                 self.append(
                     CubicBezier(
                         start_pos,
@@ -6232,7 +6239,7 @@ class Path(Shape, MutableSequence):
                 return self
             end_pos = points[index + 1]
             if end_pos in ("z", "Z"):
-                end_pos = self.z_point
+                end_pos = self._segment_close_point()
             self.append(
                 CubicBezier(
                     start_pos,
@@ -6250,7 +6257,7 @@ class Path(Shape, MutableSequence):
             start_pos = self.current_point
             control1 = points[index]
             if control1 in ("z", "Z"):
-                control1 = self.z_point
+                control1 = self._segment_close_point()
                 self.append(
                     CubicBezier(
                         start_pos,
@@ -6264,7 +6271,7 @@ class Path(Shape, MutableSequence):
                 return self
             control2 = points[index + 1]
             if control2 in ("z", "Z"):
-                control2 = self.z_point
+                control2 = self._segment_close_point()
                 self.append(
                     CubicBezier(
                         start_pos,
@@ -6278,7 +6285,7 @@ class Path(Shape, MutableSequence):
                 return self
             end_pos = points[index + 2]
             if end_pos in ("z", "Z"):
-                end_pos = self.z_point
+                end_pos = self._segment_close_point()
             self.append(
                 CubicBezier(
                     start_pos,
@@ -6307,7 +6314,7 @@ class Path(Shape, MutableSequence):
             sweep = arc_args[index + 4]
             end_pos = arc_args[index + 5]
             if end_pos in ("z", "Z"):
-                end_pos = self.z_point
+                end_pos = self._segment_close_point()
             self.append(
                 Arc(start_pos, rx, ry, rotation, arc, sweep, end_pos, relative=relative)
             )
